@@ -7,7 +7,7 @@ repo=${VP_RUN_REPO:-${VERIF_REPO:-}}
 [ -n "$repo" ] || { echo "needs VP_RUN_REPO or VERIF_REPO (never patches /repo)"; exit 2; }
 export VERIF_REPO="$repo"
 (cd lean && lake build >/dev/null 2>&1)
-for d in harmless/*/; do
+for d in ${2:-harmless/*/}; do
   name=$(basename "$d")
   props=$(python3 -c "import json,sys; print(' '.join(json.load(open('$d/meta.json')).get('checks', ['$name'])))")
   git -C "$repo" apply "$PWD/$d/patch.diff" 2>/dev/null || { echo "$name: patch does not apply"; continue; }
